@@ -1,12 +1,12 @@
 #!/bin/bash
-# usage: intake.sh <PROP> <letter> [budget] - takes a sub-agent's deliverables from /var/tmp/w9/<PROP>/ into seeded/<PROP>-<letter>/,
+# usage: intake.sh <PROP> <letter> [budget] [source dir] [worktree to remove | keep] - takes a sub-agent's deliverables from /var/tmp/w9/<PROP>/ into seeded/<PROP>-<letter>/,
 # removes the agent's scratch worktree, verifies the change independently and measures it against the property's quick check.
-P=$1; L=$2; BUD=${3:-60}
+P=$1; L=$2; BUD=${3:-60}; SRC=${4:-/var/tmp/w9/$P}; WT=${5:-/tmp/w9-$P}
 cd "$(dirname "$(readlink -f "$0")")/.."
 D=seeded/$P-$L
 mkdir -p $D
-cp /var/tmp/w9/$P/patch.diff /var/tmp/w9/$P/meta.json $D/ || exit 2
-for f in demo_test.go.txt demo_main.go.txt; do [ -f /var/tmp/w9/$P/$f ] && cp /var/tmp/w9/$P/$f $D/; done
-git -C /repo worktree remove --force /tmp/w9-$P 2>/dev/null
+cp $SRC/patch.diff $SRC/meta.json $D/ || exit 2
+for f in demo_test.go.txt demo_main.go.txt; do [ -f $SRC/$f ] && cp $SRC/$f $D/; done
+[ "$WT" != "keep" ] && git -C /repo worktree remove --force $WT 2>/dev/null
 NODE_SUITE=0 ./tools/verify_seeded.sh $D
 ./tools/mut_all.sh $BUD $D/
